@@ -80,10 +80,11 @@ pub unsafe fn ordered_try_write(locks: &[&dyn RawLock]) -> bool {
 				if lock.raw_try_write() {
 					locked.set(locked.get() + 1);
 				} else {
-					for lock in &locks[0..i] {
-						// safety: this lock was already acquired
-						lock.raw_unlock_write();
-					}
+					// the rollback below unlocks everything, even if it panics
+					// halfway, so the panic handler has nothing left to unlock
+					locked.set(0);
+					// safety: these locks were already acquired
+					unlock_all_writes(&locks[0..i]);
 					return false;
 				}
 			}
@@ -109,10 +110,11 @@ pub unsafe fn ordered_try_read(locks: &[&dyn RawLock]) -> bool {
 				if lock.raw_try_read() {
 					locked.set(locked.get() + 1);
 				} else {
-					for lock in &locks[0..i] {
-						// safety: this lock was already acquired
-						lock.raw_unlock_read();
-					}
+					// the rollback below unlocks everything, even if it panics
+					// halfway, so the panic handler has nothing left to unlock
+					locked.set(0);
+					// safety: these locks were already acquired
+					unlock_all_reads(&locks[0..i]);
 					return false;
 				}
 			}
